@@ -201,7 +201,7 @@ pub fn run(ctx: &Ctx, subjects: &[Box<dyn DynSubject>], seqs: &[SeqEntry], only_
 
 /// Replace the length-prefixed type name in a stream's header by `new_name`. Only used for pairs that must
 /// be refused by the header check, so the shift of the value part does not matter.
-fn rename_stream(bytes: &[u8], new_name: &str) -> Vec<u8> {
+pub fn rename_stream(bytes: &[u8], new_name: &str) -> Vec<u8> {
     let fixed = vmodel::format::FIXED_HEADER;
     if bytes.len() < fixed + 8 {
         return bytes.to_vec();
